@@ -45,17 +45,27 @@ def delegator_runtime(chk, F, rule, cfg):
     for fn in F.fns.values():
         io = fn.impl_of or {}
         if fn.kind == 'assoc' and io.get('self_adt') == 'Unimock' and (io.get('trait') or '').startswith('core::convert::As') and 'DefaultImplDelegator' in io.get('trait_ref', ''):
-            clos = F.closures_of(fn)
-            ok = len(clos) == 1
-            if ok:
-                for p in symex.Interp(F).run(clos[0]):
-                    v = strip(p.outcome[1])
-                    inner = None
-                    for x in symex.subvalues(v):
-                        if is_call(x, r'DefaultImplDelegator::__from_unimock$'):
-                            inner = strip(x[2][0])
-                    ok = inner is not None and is_call(inner, r'<Unimock as core::clone::Clone>::clone$') and mentions(inner, lambda y: y[0] == 'field' and y[2] in ('_ref__self', 'self'))
-                    chk.ob(rule, '%s builds the helper from a clone of this very mock' % fn.defp[:80], ok, config=cfg, fn=fn, site='helper-init', what='helper built from %s' % (show(inner)[:80] if inner else None))
+            # what fills the cell: the closure handed to OnceCell::get_or_init on this instance's cell, run with what it captured (closures it
+            # was given in turn are part of it); it must build the helper from a clone of this very mock
+            n_init = 0
+            for p in symex.Interp(F).run(fn):
+                for e in p.calls(r'OnceCell::get_or_init$'):
+                    c = strip(e.data[2][1])
+                    if not (c[0] == 'agg' and c[1] == 'closure' and c[2] in F.fns):
+                        chk.ob(rule, '%s fills the cell with a closure literal' % fn.defp[:80], False, config=cfg, fn=fn, site='helper-init', unrecognised=True, what='opaque initialiser', found=show(c)[:120])
+                        continue
+                    cf = F.fns[c[2]]
+                    for q in symex.Interp(F, inline=lambda f_, d_, n_: f_.kind == 'closure').run(cf, args=[c]):
+                        n_init += 1
+                        v = strip(q.outcome[1]) if q.outcome[0] == 'return' else ('unk', '')
+                        inner = None
+                        for x in symex.subvalues(v):
+                            if is_call(x, r'DefaultImplDelegator::__from_unimock$'):
+                                inner = strip(x[2][0])
+                        ok = inner is not None and is_call(inner, r'<Unimock as core::clone::Clone>::clone$') and \
+                            mentions(inner, lambda y: (y[0] == 'field' and y[2] in ('_ref__self', 'self')) or y == ('param', 0, 1) or (y[0] == 'ref' and y[1][0] == ('ptr', ('param', 0, 1))))
+                        chk.ob(rule, '%s builds the helper from a clone of this very mock' % fn.defp[:80], ok, config=cfg, fn=fn, site='helper-init', what='helper built from %s' % (show(inner)[:80] if inner else None))
+            chk.floor(rule, 'initialisers of the helper cell analysed in %s' % fn.defp[:60], n_init, 1, config=cfg)
             for p in symex.Interp(F).run(fn):
                 r = strip(p.outcome[1])
                 okr = mentions(r, lambda x: is_call(x, r'OnceCell::(get_or_init|get_mut|get)$')) and mentions(r, lambda x: (x[0] == 'ref' and x[1][1][-1:] == (('f', 'default_impl_delegator_cell'),)))
